@@ -20,6 +20,7 @@ package compat
 
 //@ func (JSFeature).Has
 //@   arith bv
+//@   opt pure
 //@   prop C14
 //@   ensures bit: result <==> (features & feature) != 0
 
